@@ -90,7 +90,7 @@ impl Prop for C17 {
         "An animation-set file (meta None/Some, clip table of exactly 257 optional names, 0..=6 (40 in thorough) sets each with an optional label (never the reserved AnimClipNameTable) and a present/absent pattern over 256 slots: \
          empty, single slot, only bit 31 of a group, dense, alternating groups, random; names Shift-JIS-lossless incl. the empty string) is serialized, parsed with BinArchive::from_bytes + ASetFile::from_archive and compared field by field; \
          re-serializing the re-read value must give identical bytes; the data size reported by the independent reader must be 12 + 4*257 + sum over sets of 4*(1 + groups present + names present). Large files with 255/256/257 fully populated sets (just below and above 65 536 strings). Bounded-exhaustive: every single slot 0..=255 alone, \
-         bit 31 alone in each group, and empty / unlabelled sets in every position of a 3-set file. 1 case in 100 has 260..=700 sets; names come from the shared pool (which holds proper endings / beginnings of other pool strings) and 1 in ~300 is up to 36 KiB long. Non-trivial: >= 1 set with >= 1 present slot and >= 1 entirely absent group, or an empty set. Distinct = distinct case value."
+         bit 31 alone in each group, and empty / unlabelled sets in every position of a 3-set file. 1 case in 100 has 260..=700 sets; names come from the shared pool (which holds proper endings / beginnings of other pool strings) and 1 in ~300 is up to 36 KiB long. The re-read value is then edited through its public fields (first set / spec moved to the end, meta, one clip name or the header flags changed) and must round-trip again (edited-value-round-trip). Non-trivial: >= 1 set with >= 1 present slot and >= 1 entirely absent group, or an empty set. Distinct = distinct case value."
             .into()
     }
     fn assumptions() -> Vec<String> {
@@ -212,6 +212,32 @@ impl Prop for C17 {
                 return;
             }
             None => return,
+        }
+        // the re-read value, edited through its public fields, is a value like any other: nothing remembered from the parse may leak
+        // into its serialization (meta and one clip name changed, first set moved to the end)
+        {
+            let mut edited = back;
+            edited.meta = Some("edited".to_string());
+            if let Some(c) = edited.anim_clip_table.get_mut(5) {
+                *c = Some("edited_clip".to_string());
+            }
+            if !edited.sets.is_empty() {
+                let s = edited.sets.remove(0);
+                edited.sets.push(s);
+            }
+            let again = match cx.call(|| edited.serialize().and_then(|b| BinArchive::from_bytes(&b, Endian::Little)).and_then(|ar| ASetFile::from_archive(&ar))) {
+                Some(Ok(b)) => b,
+                Some(Err(e)) => {
+                    cx.fail("edited-value-round-trip", format!("serializing and re-reading the edited re-read value failed: {e}"));
+                    return;
+                }
+                None => return,
+            };
+            if !cx.check(again.meta == edited.meta && again.anim_clip_table == edited.anim_clip_table && again.sets == edited.sets, "edited-value-round-trip", || {
+                format!("after changing meta / clip 5 and moving the first set to the end of the re-read value, serialize + re-read gives meta {:?}, clip 5 {:?}, {} sets (equal to the edited value: meta {}, clips {}, sets {})", again.meta, again.anim_clip_table.get(5), again.sets.len(), again.meta == edited.meta, again.anim_clip_table == edited.anim_clip_table, again.sets == edited.sets)
+            }) {
+                return;
+            }
         }
         // size: absent slots cost nothing, an entirely absent group is omitted
         let mut expect = 12 + 4 * 257;
